@@ -81,7 +81,10 @@ func (p *Program) QNameAny(fn *types.Func) string {
 				pk = n.Obj().Pkg().Path()
 			}
 		}
-		return pk + ".(" + ptr + name + ")." + fn.Name()
+		if ptr == "" {
+			return pk + "." + name + "." + fn.Name()
+		}
+		return pk + ".(*" + name + ")." + fn.Name()
 	}
 	return pk + "." + fn.Name()
 }
